@@ -180,4 +180,15 @@ var Properties = map[string]*Property{
 		Assumptions: []string{"|value| < 2^40 in ScaleN (power-of-two ratios are then exact)"},
 		Outside: []string{"non-power-of-two ratios (ms<->ns, -normalize quotients): FP multiply by 10^k does not finish in the solver", "sample-type alignment (CompatibilizeSampleTypes) and unit harmonisation (ScaleProfiles) end to end", "diff-base percentages and proto round trip of the result"},
 	},
+	"C18": {
+		ID: "C18",
+		Harnesses: []HarnessSpec{
+			{Pkg: "internal/graph", Fn: "VerifC18Dot", Solver: "z3", MaxDecisions: 3000, Quick: map[string]int{"c18.bytes": 1}, Thorough: map[string]int{"c18.bytes": 2}, QuickTimeoutS: 200, ThoroughTimeoutS: 900,
+				What: "graph.New + ComposeDot (start, addLegend, addNode, addNodelets, numericNodelets, addEdge, escapeForDot, multilinePrintableName, joinLabels) with DOT metacharacters (quote, backslash, newline, <, >) or an ordinary character at 1-2 positions inside one of: graph title, legend line, function name, file name, label value, numeric label unit; the output is read by an independent DOT lexer/parser written in the harness: it tokenizes, parses as digraph{...}, and every edge endpoint is a declared node"},
+			{Pkg: "internal/report", Fn: "VerifC18Callgrind", Solver: "z3", MaxDecisions: 3000, QuickTimeoutS: 200, ThoroughTimeoutS: 600,
+				What: "printCallgrind/callgrindName/getDisambiguatedNames with a metacharacter (newline, space, parentheses, =) inside the function, file or binary name and three address patterns: every line is a name line or a cost line, every (n) back-reference was defined earlier with that name"},
+		},
+		Assumptions: []string{"each symbolic byte is pinned to one class by assumption; the class 'ordinary character' is represented by a solver-chosen lower-case letter when the code hands the string to a native regexp/filepath function (counted as concretization)"},
+		Outside: []string{"HTML views (html/template is trusted)", "Graphviz semantics beyond syntax", "callgrind position compression with symbolic addresses (length comparison of formatted numbers)", "more than 2 metacharacters per string"},
+	},
 }
